@@ -358,6 +358,60 @@ func TestTruncations(t *testing.T) {
 	_ = n
 }
 
+// TestHotSubstitutions: short header-consistent frames with one byte replaced by a boundary value (wrap-around candidates
+// for uint8 length arithmetic: 0, 1, 0x7f, 0x80, 0xf0..0xff) at every position, for every entry point and function.
+func TestHotSubstitutions(t *testing.T) {
+	hot := []byte{0, 1, 2, 0x7f, 0x80, 0xf0, 0xf5, 0xf6, 0xf7, 0xf8, 0xf9, 0xfa, 0xfb, 0xfc, 0xfd, 0xfe, 0xff}
+	idx := 0
+	n := int64(0)
+	for ei := range entries {
+		e := &entries[ei]
+		fcs := []uint8{e.FC}
+		if e.FC == 0 {
+			fcs = spec.Functions
+		}
+		for _, fc := range fcs {
+			idx++
+			if !harness.Mine(idx) {
+				continue
+			}
+			f := fixedFrame(e, fc, 3)
+			maxL := 24
+			if len(f) < maxL {
+				maxL = len(f)
+			}
+			for L := 3; L <= maxL; L++ {
+				for pos := 0; pos < L; pos++ {
+					for _, v := range hot {
+						for _, fix := range []bool{false, true} {
+							d := append([]byte(nil), f[:L]...)
+							d[pos] = v
+							if fix {
+								if e.Framing == spec.TCP {
+									if pos == 4 || pos == 5 {
+										continue
+									}
+									fixLen(e.Framing, d)
+								} else {
+									if pos >= L-2 {
+										continue
+									}
+									fixCRC(e.Framing, d)
+								}
+							}
+							n++
+							if !chkParse.EvalFast(t, parseCase{Entry: e.Name, Data: d, Tail: f[L:], Src: "hot-substitution"}) {
+								return
+							}
+						}
+					}
+				}
+			}
+		}
+	}
+	harness.Exhaustive("parse-any-bytes", "every prefix length 3..24 of one valid frame per (entry point, function) x every position x 17 boundary byte values, raw and with the length field / CRC made consistent", n)
+}
+
 func fixedFrame(e *entry, fc uint8, seed uint64) []byte {
 	s := seed
 	isReq := e.Request
